@@ -32,6 +32,7 @@ import DDProps.C07Accept
 import DDProps.C07Levels
 import DDProps.C08
 import DDProps.C08Accept
+import DDProps.C08AcceptLe
 import DDProps.C08AcceptMore
 import DDProps.C08Sched
 import DDProps.C08Values
